@@ -140,6 +140,7 @@ type RStep struct {
 	HoldSink bool `json:"holdsink,omitempty"` // like hold, but the handler is parked inside the accounting sink, before the record is formatted
 	Hold     bool `json:"hold,omitempty"`     // park this request's handler at its first logger call while the following steps of OTHER connections run
 	Pws      []BS `json:"pws,omitempty"`      // passwords carried by this step (labels for C18)
+	Cut      int  `json:"cut,omitempty"`      // drop this many octets from the end of the encoded body (the header announces the shortened length)
 	CKey     BS   `json:"ckey,omitempty"`     // the key THE CLIENT obfuscates with (default: whatever key the server bound the connection to)
 }
 type RConn struct {
@@ -629,6 +630,9 @@ func (r *refRun) feed0(st *refConnState, s *RStep, i int) bool {
 		return st.conn.WaitQuiesce()
 	}
 	body := s.P.encode()
+	if s.Cut > 0 && s.Cut < len(body) {
+		body = body[:len(body)-s.Cut]
+	}
 	sid := r.sidPool[s.Sid%len(r.sidPool)]
 	ty := s.Ty
 	if ty == 0 {
